@@ -339,13 +339,13 @@ class Check:
                 self.proof_broken.append("leanchecker rejected " + props_module)
         return not self.proof_broken
 
-    def drive(self, driver_module, lines, timeout=1800):
+    def drive(self, driver_module, lines, timeout=1800, args=()):
         """pipe op lines through the Lean model driver; returns output lines"""
         if not lines:
             return []
         path = os.path.join("QV", "Drive", driver_module + ".lean")
         inp = "\n".join(lines) + "\n"
-        rc, out, err, dt = run_cmd(["lake", "env", "lean", "--run", path], cwd=LEAN, inp=inp, timeout=timeout)
+        rc, out, err, dt = run_cmd(["lake", "env", "lean", "--run", path] + [str(a) for a in args], cwd=LEAN, inp=inp, timeout=timeout)
         if rc != 0:
             # a model driver that does not compile is a broken tie, not an infra error
             self.tie_broken.append("model driver %s failed: %s" % (driver_module, (err + out)[-800:]))
@@ -437,9 +437,11 @@ class Check:
         os.makedirs(os.path.join(ROOT, "evidence"), exist_ok=True)
         with open(os.path.join(ROOT, "evidence", self.pid + ".json"), "w") as f:
             json.dump(ev, f, indent=1, default=str)
+        out = sys.__stdout__
         for l in lines:
-            print(l)
+            print(l, file=out)
         print("%s %s seed=%d: obligations %d/%d, cases %d (%d distinct non-trivial), model/impl differences %d, oracle failures %d (%d known), %.1fs -> exit %d"
               % (self.pid, self.tier, self.seed, self.discharged, self.obligations, self.evaluations, len(self.keys),
-                 len(self.disagreements), len(self.failures), len(self.failures) - len(new_failures), wall, exit_code))
+                 len(self.disagreements), len(self.failures), len(self.failures) - len(new_failures), wall, exit_code), file=out)
+        out.flush()
         return exit_code
